@@ -518,12 +518,21 @@ qlisttbl_data_t *qlisttbl_getmulti(qlisttbl_t *tbl, const char *name, bool newme
         if (numfound >= allocobjs) {
             if (allocobjs == 0) allocobjs = 10;  // start from 10
             else allocobjs *= 2;  // double size
-            objs = (qlisttbl_data_t *)realloc(objs, sizeof(qlisttbl_data_t) * allocobjs);
-            if (objs == NULL) {
+            qlisttbl_data_t *newobjs = (qlisttbl_data_t *)realloc(objs, sizeof(qlisttbl_data_t) * allocobjs);
+            if (newobjs == NULL) {
                 DEBUG("qlisttbl->getmulti(): Memory reallocation failure.");
+                // release the object just fetched and what was collected so far
+                if (newmem == true) {
+                    if (obj.name != NULL) free(obj.name);
+                    if (obj.data != NULL) free(obj.data);
+                }
+                qlisttbl_freemulti(objs);
+                objs = NULL;
+                numfound = 0;
                 errno = ENOMEM;
                 break;
             }
+            objs = newobjs;
         }
 
         // copy reference
